@@ -3,14 +3,14 @@
 # applies the patch to /repo, runs the repo's 64 unit tests and the given quick checks, restores /repo.
 set -u
 PATCH=$(readlink -f "$1"); shift
-cd /repo || exit 3
+cd ${REPO:-/repo} || exit 3
 if [ -n "$(git status --porcelain --untracked-files=no)" ]; then echo "REPO DIRTY - refusing"; exit 3; fi
-restore() { git -C /repo checkout -- . ; }
+restore() { git -C ${REPO:-/repo} checkout -- . ; }
 trap restore EXIT
 git apply "$PATCH" || { echo "PATCH DOES NOT APPLY"; exit 3; }
 echo "== unit tests with the change"
 CARGO_NET_OFFLINE=true cargo test --workspace --lib --bins --no-fail-fast --offline 2>&1 | grep -E "^test result: .* [1-9][0-9]* (passed|failed)|^error" | head -3
-cd /verif
+cd ${VERIFDIR:-/verif}
 for id in "$@"; do
   echo "== ./check $id quick"
   ./check "$id" quick 2>&1 | grep -E "^\[C[0-9]+\] (quick|OK)|VIOLATION|INCONCLUSIVE|violation:" | cut -c1-330 | head -6
